@@ -439,7 +439,11 @@ func gatesCatalogue() []recipe {
 		if !ok || d.Msg.Header.Timestamp.Unix() <= d.Parent.MTP() {
 			return false
 		}
-		addTx(d, x.spend(c, 0, func(tx *wire.MsgTx) { tx.LockTime = uint32(d.Parent.MTP()); tx.TxIn[0].Sequence = 0xfffffffe; tx.Version = 1 }), 0)
+		addTx(d, x.spend(c, 0, func(tx *wire.MsgTx) {
+			tx.LockTime = uint32(d.Parent.MTP())
+			tx.TxIn[0].Sequence = 0xfffffffe
+			tx.Version = 1
+		}), 0)
 		lab(x, d.Height >= x.gates.csv, E, "bc:unfinalized")
 		return true
 	})
